@@ -515,7 +515,7 @@ class Engine(Interp):
                 out.append(('goto', t['target'], ok_st))
             if bad_st is not None and not bad_st.unwinding:
                 bad_st.unwinding = True
-                bad_st.log('panic', 'assert:' + t['msg'], short(body.id))
+                bad_st.log('panic', 'assert:' + t['msg'], short(body.id), self.panic_just(bad_st))
                 self.stats['escapes'] += 1
                 out.extend(self.unwind_to(bad_st, t['unwind']))
             return out
@@ -539,7 +539,8 @@ class Engine(Interp):
             v = self.load(st, ptr)
             for kind, s in self.drop_value(st, v, t['effects']):
                 if ptr[0] in ('L', 'O'):
-                    self.store(s, ptr, MOVED)
+                    # (a caller-owned place that held a container remembers which: `*place = new value` next)
+                    self.store(s, ptr, ('moved', v) if (ptr[0] == 'O' and v[0] != 'moved' and self.byvalue_maps(v)) else MOVED)
                 if kind == 'ret':
                     out.append(('goto', t['target'], s))
                 else:
@@ -930,7 +931,7 @@ class Engine(Interp):
             if self.may_unwind(eff) and not s.unwinding:
                 u = s.fork()
                 u.unwinding = True
-                u.log('panic', 'core', nm)
+                u.log('panic', 'core', nm, self.panic_just(u))
                 self.stats['escapes'] += 1
                 out.append(('unwind', u, None))
             diverges = dest_ty is not None and dest_ty.get('k') == 'never'
@@ -1118,6 +1119,21 @@ class Engine(Interp):
                     ms.owned_extras = False
             out.extend(self.drop_fields(s, list(v2[3]) if v2[0] == 'adt' else [], eff, depth))
         return out
+
+    def panic_just(self, st):
+        """what could justify a panic of the crate's own at this moment: the containers that were scanned
+        completely for a key without a match, and whether each of them is full"""
+        out = []
+        for mid, ms in st.maps.items():
+            if ms.phantom or ms.dead:
+                continue
+            try:
+                miss = self.miss_complete(st, mid)
+            except Exception:
+                miss = None
+            if miss is not None:
+                out.append((mid, bool(st.zone.entails_eq(ms.len, ms.cap))))
+        return tuple(out)
 
     def cursor_struct(self, path):
         """struct { slots: &mut [MaybeUninit<_>], next: usize } of the crate: a hand-written front cursor over a
